@@ -78,6 +78,18 @@ CHECKS = {
          "(1) The C20 interleaving harness with the combined commit+working-set update, its competitors and atomic reads always enabled: no read may show the head of one update with the working set of another. (2) Crash images of single-session update sequences on a journaling store: at every op-log position on the journal/manifest, with the unsynced tail lost, kept, cut at record boundaries or turned to garbage, the reopened dataset map must be exactly the last acknowledged or the in-flight one.",
          "Persistence model as stated in the evidence; SQL-level dolt_commit is decided in the SQL harnesses.",
          "deterministic simulation: S1 interleavings + porcupine, and op-log crash-image enumeration with real recovery", "DESIGN.md §6.2 C21", "dsim-refs"),
+ "C22": ("exploration",
+         "2-4 sessions (autocommit on/off) on one branch behind the production SQL engine, statement-level seeded interleaving with clean restarts; a row-level reference model (snapshot at transaction start + own writes per session; branch = cell-wise three-way merge of acknowledged transactions in commit order) predicts every SELECT (full scan, by key, through each secondary index): uncommitted writes of others never appear, committed ones only in a new transaction.",
+         "Statement forms are limited to what the model predicts exactly; sub-statement interleaving is not explored (S0). One branch; cross-branch and AS OF reads are C33's subject.",
+         "deterministic simulation: seeded statement-level interleaving of real sessions vs. row-level snapshot model", "DESIGN.md §6.3 C22", "dsim-sql"),
+ "C23": ("exploration",
+         "Same world as C22 with more overlapping commits: each COMMIT outcome is compared with the cell-wise conflict rule, a success must leave merge(start, branch, mine), a refusal must leave nothing of the session's changes, and the table must equal the fold of all acknowledged transactions in commit order at the end and after every clean restart (no committed write lost).",
+         "A refusal the model does not predict is counted, not reported (the property forbids lost writes, not refusals). S0 interleaving.",
+         "deterministic simulation: seeded statement-level interleaving vs. cell-wise three-way merge model", "DESIGN.md §6.3 C23", "dsim-sql"),
+ "C25": ("exploration",
+         "Same world with index-heavy statements, UPDATE through an index and ADD/DROP INDEX: after every write statement (inside the writer's own transaction) and at the end through a fresh session, every lookup through index ia and a covering range scan over index ibc are compared entry for entry with the table scan of the same session - in particular after transaction-commit merges rebuilt the secondary indexes and after clean restarts.",
+         "Index contents are observed through index-driven queries of the engine (lookup and covering range scan), not by reading the index maps directly.",
+         "deterministic simulation: seeded interleaving + index-vs-table direct evaluator after every write", "DESIGN.md §6.3 C25", "dsim-sql"),
 }
 
 def main():
@@ -107,6 +119,8 @@ def main():
         else:
             na.append({"property_id": pid, "reason": "simulation check designed (DESIGN.md §6) but not built yet; not claimed until it runs"})
     engines = [
+        {"name": "dsim-sql", "path": "/verif/sim/sql", "serves_properties": [p for p, c in CHECKS.items() if c[5] == "dsim-sql"],
+         "kind_free_text": "deterministic simulator: production SqlEngine over an on-disk journaling environment on the simulated OS, several sessions, seeded statement-level interleaving, row-level reference model"},
         {"name": "dsim-refs", "path": "/verif/sim/refs", "serves_properties": [p for p, c in CHECKS.items() if c[5] == "dsim-refs"],
          "kind_free_text": "deterministic simulator: real datas / doltdb / remotesrv / remotestorage over the simulated OS, seeded S1 scheduler, porcupine"},
         {"name": "dsim-store", "path": "/verif/sim/store", "serves_properties": [p for p, c in CHECKS.items() if c[5] == "dsim-store"],
